@@ -77,6 +77,9 @@ def case_hash(obj) -> str:
 def _blame(exc: BaseException) -> str:
     """Who raised: 'lerax' if the innermost frame that is either lerax or harness code is lerax."""
     tb = traceback.extract_tb(exc.__traceback__)
+    if type(exc).__name__ in ("EqxRuntimeError", "XlaRuntimeError", "JaxRuntimeError"):
+        # run-time checks (eqx.error_if) only exist inside lerax; the harness has none
+        return "lerax:runtime-check:" + str(exc).strip().splitlines()[0][:80]
     for frame in reversed(tb):
         fn = frame.filename
         if "/lerax/" in fn and "/verif/" not in fn:
@@ -566,11 +569,13 @@ def main(argv=None):
         return ctx.finish()
     except HarnessError as exc:
         print(f"HARNESS ERROR in {prop}: {exc}", file=sys.stderr)
+        rc = 2
         try:
-            ctx.finish()
+            if ctx.finish() == 1:
+                rc = 1  # violations already established stay reported
         except Exception:
             pass
-        return 2
+        return rc
     except Exception:
         traceback.print_exc()
         return 2
